@@ -140,6 +140,32 @@ class Unroll(ast.NodeTransformer):
     def _inst(expr, b):
         return _Fold().visit(_Subst(b).visit(copy.deepcopy(expr)))
 
+    def visit_FunctionDef(self, fn):
+        # locals bound once to a literal tuple / list of constants are tables too (`keys = ('a', 'b')`)
+        stores = {}
+        for x in ast.walk(fn):
+            if isinstance(x, ast.Name) and not isinstance(x.ctx, ast.Load):
+                stores[x.id] = stores.get(x.id, 0) + 1
+            elif isinstance(x, ast.Call) and isinstance(x.func, ast.Attribute) and isinstance(x.func.value, ast.Name) \
+                    and x.func.attr in ('append', 'extend', 'insert', 'remove', 'pop', 'sort', 'reverse', 'clear'):
+                stores[x.func.value.id] = stores.get(x.func.value.id, 0) + 2
+        added = []
+        for a_ in ast.walk(fn):
+            if isinstance(a_, ast.Assign) and len(a_.targets) == 1 and isinstance(a_.targets[0], ast.Name) \
+                    and isinstance(a_.value, (ast.Tuple, ast.List)) and a_.value.elts \
+                    and all(_is_const(e) for e in a_.value.elts) and stores.get(a_.targets[0].id, 0) == 1 \
+                    and a_.targets[0].id not in self.consts and a_.targets[0].id not in {p.arg for p in fn.args.args}:
+                self.consts[a_.targets[0].id] = a_.value
+                added.append(a_.targets[0].id)
+        try:
+            self.generic_visit(fn)
+        finally:
+            for k in added:
+                self.consts.pop(k, None)
+        return fn
+
+    visit_AsyncFunctionDef = visit_FunctionDef
+
     def visit_DictComp(self, n):
         self.generic_visit(n)
         r = self.expand(n, lambda b: (self._inst(n.key, b), self._inst(n.value, b)))
@@ -175,6 +201,28 @@ class Unroll(ast.NodeTransformer):
             if r is not None:
                 n.value = ast.copy_location(ast.Tuple(elts=r, ctx=ast.Load()), ge)
         return n
+
+
+def _splice_literal_splats(tree):
+    """`f(**{'a': x, 'b': y})` is `f(a=x, b=y)`; `{**{'a': x}, 'c': z}` is `{'a': x, 'c': z}` (constant string keys only)"""
+    n = 0
+    for x in ast.walk(tree):
+        if isinstance(x, ast.Call):
+            for i in range(len(x.keywords) - 1, -1, -1):
+                kw = x.keywords[i]
+                if kw.arg is None and isinstance(kw.value, ast.Dict) and kw.value.keys and all(
+                        k is not None and isinstance(k, ast.Constant) and isinstance(k.value, str) and k.value.isidentifier()
+                        for k in kw.value.keys):
+                    x.keywords[i:i + 1] = [ast.keyword(arg=k.value, value=v) for k, v in zip(kw.value.keys, kw.value.values)]
+                    n += 1
+        elif isinstance(x, ast.Dict):
+            for i in range(len(x.keys) - 1, -1, -1):
+                if x.keys[i] is None and isinstance(x.values[i], ast.Dict) and all(k is not None for k in x.values[i].keys):
+                    inner = x.values[i]
+                    x.keys[i:i + 1] = list(inner.keys)
+                    x.values[i:i + 1] = list(inner.values)
+                    n += 1
+    return n
 
 
 def _splice_function(fn):
@@ -262,7 +310,7 @@ def unroll(tree):
                 splat = True
     consts = {k: v for k, v in consts.items() if stores.get(k, 0) == 1}
     u = Unroll(consts)
-    if any(u.entries(c.generators[0].iter) is not None for c in comps):
+    if any(u.entries(c.generators[0].iter) is not None or isinstance(c.generators[0].iter, ast.Name) for c in comps):
         tree = u.visit(tree)
     n_spl = 0
 
@@ -277,6 +325,7 @@ def unroll(tree):
         for fn in ast.walk(tree):
             if isinstance(fn, (ast.FunctionDef, ast.AsyncFunctionDef)) and has_splat(fn):
                 n_spl += _splice_function(fn)
+    n_spl += _splice_literal_splats(tree)
     if u.count or n_spl:
         ast.fix_missing_locations(tree)
     return tree, u.count, n_spl
